@@ -286,6 +286,9 @@ func (p *proc) die(signo, status *int32, why string) bool {
 	p.cancel()
 	p.a.closeConns()
 	delay := time.Duration(p.h.sc.Config.ExitEventDelayMs[p.role]) * time.Millisecond
+	if d, ok := p.h.sc.Config.ExitEventDelayMs["proc:"+p.name]; ok {
+		delay = time.Duration(d) * time.Millisecond // one particular process (e.g. proc:runtime-1)
+	}
 	// (The first version kept every exit report at least 20 ms clear of Exec's return, on the argument that a real
 	// process cannot be reported dead before the orchestrator has noted that it started. Under load the orchestrator's
 	// goroutine was seen to lag more than that, the report overtook the bookkeeping and the emulator died: a finding, fix
